@@ -510,6 +510,11 @@ func (it *wtInterp) Exec(line string) string {
 		return it.r.readAll()
 	case "readprev":
 		return it.r.readPrev(atoi(t[2]))
+	case "rclose": // the caller closes the reader it holds (the transports do, with every reader), read to the end or not
+		if c, ok := it.r.cur.(io.Closer); ok && it.r.cur != nil {
+			c.Close()
+		}
+		return "ok"
 	case "msgs":
 		got, errc := it.r.readMsgs(len(it.r.s.in) + 3)
 		it.r.last, it.r.lastErr = got, errc
@@ -936,6 +941,9 @@ func famWTRead(t *testing.T, r *Rec) {
 				if pattern == 1 {
 					do("wt readall")
 				}
+				if r.rng.IntN(3) == 0 {
+					do("wt rclose") // whether or not the message was read to the end
+				}
 			}
 		}
 		do("wt closes")
@@ -943,6 +951,54 @@ func famWTRead(t *testing.T, r *Rec) {
 		if len(r.samples) < 6 && len(sc.stream) < 60 {
 			r.Sample(strings.Join(replay, " ; "))
 		}
+	}
+	// huge declared lengths read through ReadMessage without a limit: an error (truncated), never a panic
+	for _, v := range []uint64{1 << 62, 1<<63 - 1, 1<<63 - 4096} {
+		for _, kb := range []byte{0x00, 0x80} {
+			h := make([]byte, 9)
+			h[0] = kb | 127
+			binary.BigEndian.PutUint64(h[1:], v)
+			stream := append(h, payload(r.rng, 30)...)
+			it := &wtInterp{}
+			r.scenarios++
+			r.Cover("huge-readmessage-unlimited")
+			op1 := fmt.Sprintf("wt rnew 0 e 0 %s - 0", hx(stream))
+			r.Op(op1, it.Exec(op1))
+			o := it.Exec("wt msgs")
+			r.Op("wt msgs", o)
+			if strings.HasSuffix(o, "err panic") || o == "panic" {
+				r.Violate("C15", "C15/panic/huge-readmessage", fmt.Sprintf("ReadMessage panicked on a frame declaring %d bytes", v), []string{op1, "wt msgs"})
+			}
+			it.r.done()
+		}
+	}
+	// an abandoned message whose reader the caller closes, then the next message: the unread rest is skipped once
+	for _, n1 := range []int{10, 130} {
+		m1, m2, m3 := payload(r.rng, n1), payload(r.rng, 7), payload(r.rng, 9)
+		stream := append(append(specEncode("t", m1, formMin), specEncode("b", m2, formMin)...), specEncode("t", m3, form16)...)
+		it := &wtInterp{}
+		r.scenarios++
+		r.Cover("abandon-close-next")
+		var replay []string
+		do := func(op string) string {
+			out := it.Exec(op)
+			r.Op(op, out)
+			replay = append(replay, op)
+			return out
+		}
+		do(fmt.Sprintf("wt rnew 0 e 0 %s - 0", hx(stream)))
+		do("wt next")
+		do("wt read 3")
+		do("wt rclose")
+		do("wt rclose")
+		if o := do("wt next"); o != "reader b" {
+			r.Violate("C14", "C14/decoder/after-abandoned-and-closed-reader", "the frame after an abandoned message whose reader was closed by the caller was read as: "+o, replay)
+		}
+		if o := do("wt readall"); o != "data "+hx(m2)+" -" && o != "data "+hx(m2)+" eof" {
+			r.Violate("C14", "C14/decoder/after-abandoned-and-closed-reader/content", "the message after an abandoned one reads "+o+", want "+hx(m2), replay)
+		}
+		do("wt closes")
+		it.r.done()
 	}
 	// a read error in the middle of a payload, on a stream that would go on afterwards: the failure is sticky for
 	// the message reader and for the connection
